@@ -131,6 +131,14 @@ PROPS = {
                         "the memory list is compared against the thread records of the same image (stacks), the crash instruction pointer and the requested regions"],
         'partial': 'byte fidelity is relative to the read primitives (C17); short reads of application regions adjacent to unmapped pages are an error of the whole dump (hard step), as coded',
     },
+    'C19': {
+        'abi_module': 'AbiTl',
+        'stages': quick_thorough(
+            [{'name': 'reuse', 'sub': 'reuse', 'n': 25, 'timeout': 600}],
+            [{'name': 'reuse', 'sub': 'reuse', 'n': 600, 'timeout': 3000}]),
+        'assumptions': ["'equivalent to a fresh writer' is judged by comparing every dump of the history with the model of a single fresh dump (the same comparison C04-C07 use)"],
+        'partial': 'the carried-state model covers the three fields the writer keeps between requests (memory blocks, crashing-thread context, principal mapping)',
+    },
     'C13': {
         'abi_module': 'AbiC13',
         'stages': quick_thorough(
